@@ -945,12 +945,12 @@ class ExcelCompiler:
 
                     # fetch the value for this cell, if it exists
                     ref_addr = value.address
-                    if ref_addr not in self.cell_map and getattr(self, 'excel', None):
-                        # INDIRECT() can produce addresses we don't already have loaded
-                        self._gen_graph(ref_addr)
-
-                    # the cell referred to may not have been calculated yet
                     try:
+                        if ref_addr not in self.cell_map and getattr(self, 'excel', None):
+                            # INDIRECT() can produce addresses we don't already have loaded
+                            self._gen_graph(ref_addr)
+
+                        # the cell referred to may not have been calculated yet
                         value = self._evaluate(ref_addr)
                     except Exception:
                         if self.cycles:
